@@ -101,6 +101,14 @@ func buildPublish(p *mq.Publish, topic, payload []byte, props []spec.Prop) error
 // permutations after all other fields. 0 is the default order.
 var PublishOrder int
 
+// ConnectOrder selects the order of the last setter calls on a CONNECT:
+// bit 0: SetWillDelayInterval after SetWill (default: before); bit 1: the
+// credentials before the will (default: after).
+var ConnectOrder int
+
+// NConnectOrders is the number of values ConnectOrder distinguishes.
+const NConnectOrders = 4
+
 // NPublishOrders is the number of values PublishOrder distinguishes.
 const NPublishOrders = 48
 
@@ -302,7 +310,12 @@ func Build(p *spec.Packet) (mq.Packet, error) {
 				return nil, nc("property 0x%02x has no setter on Connect", pr.ID)
 			}
 		}
-		if w := p.Will; w != nil {
+		var err error
+		will := func() {
+			w := p.Will
+			if w == nil || err != nil {
+				return
+			}
 			wp := newPublish()
 			if w.QoS != 0 {
 				wp.SetQoS(w.QoS)
@@ -312,31 +325,56 @@ func Build(p *spec.Packet) (mq.Packet, error) {
 				wp.SetRetain(true)
 				tick(wp)
 			}
-			if err := buildPublish(wp, w.Topic, w.Payload, w.Props); err != nil {
-				return nil, err
+			if err = buildPublish(wp, w.Topic, w.Payload, w.Props); err != nil {
+				return
 			}
-			for _, pr := range w.Props {
-				if pr.ID == 0x18 {
-					c.SetWillDelayInterval(pr.N)
-					tick(c)
+			delay := func() {
+				for _, pr := range w.Props {
+					if pr.ID == 0x18 {
+						c.SetWillDelayInterval(pr.N)
+						tick(c)
+					}
 				}
+			}
+			if ConnectOrder&1 == 0 {
+				delay()
 			}
 			c.SetWill(wp)
 			tick(c)
-		}
-		if p.HasUser {
-			if len(p.User) == 0 {
-				return nil, nc("user name flag with empty user name")
+			if ConnectOrder&1 == 1 {
+				delay()
 			}
-			c.SetUsername(string(p.User))
-			tick(c)
 		}
-		if p.HasPass {
-			if len(p.Pass) == 0 {
-				return nil, nc("password flag with empty password")
+		creds := func() {
+			if err != nil {
+				return
 			}
-			c.SetPassword(cp(p.Pass))
-			tick(c)
+			if p.HasUser {
+				if len(p.User) == 0 {
+					err = nc("user name flag with empty user name")
+					return
+				}
+				c.SetUsername(string(p.User))
+				tick(c)
+			}
+			if p.HasPass {
+				if len(p.Pass) == 0 {
+					err = nc("password flag with empty password")
+					return
+				}
+				c.SetPassword(cp(p.Pass))
+				tick(c)
+			}
+		}
+		if ConnectOrder&2 == 0 {
+			will()
+			creds()
+		} else {
+			creds()
+			will()
+		}
+		if err != nil {
+			return nil, err
 		}
 		return c, nil
 
